@@ -59,6 +59,9 @@ SCENARIOS = {
                         affinity_limits={'rack': 1, 'server': 1}, data_retention_timeout='2s')],
         groups={'proid.g1': 3},
         apps=['a1', 'a2', 'a3', 'a4']),
+    # (filled in below) 'hetero': base + instances that share an affinity NAME but
+    # declare different limits for it - only for the master-level checks; the
+    # scheduler clauses of C04 assume shared limits, as the statement of C04 does
     # terabyte-sized disks: capacities that differ by a few MB must still differ
     'big': dict(
         racks={'rack:r1': ['s1', 's2']}, partitions=[], traits=[],
@@ -83,6 +86,34 @@ SCENARIOS = {
         aprofiles=[_man('proid.web', data_retention_timeout='0s')],
         groups={}, apps=['a1', 'a2'], lag=True),
 }
+
+
+SCENARIOS['hetero'] = dict(SCENARIOS['base'])
+SCENARIOS['hetero']['aprofiles'] = [
+    dict(name='proid.lim', demand=[256, 0, 256], affinity='lim',
+         affinity_limits={'rack': 1, 'server': 1}, data_retention_timeout='2s'),
+    dict(name='proid.lim', demand=[256, 0, 256], affinity='lim', data_retention_timeout='2s'),
+    dict(name='proid.lim', demand=[256, 0, 256], affinity='lim',
+         affinity_limits={'cell': 2}, data_retention_timeout='2s'),
+    dict(name='proid.web', demand=[512, 0, 512], affinity='web', data_retention_timeout='1s')]
+SCENARIOS['hetero']['apps'] = ['a1', 'a2', 'a3', 'a4', 'a5']
+
+
+def gen_hetero(scn, rng):
+    """Instances of one affinity name with different limits, placed one cycle at
+    a time (so that the strict ones may come first), then fail-overs."""
+    hist = []
+    for a in scn['apps'][:rng.randrange(2, len(scn['apps']) + 1)]:
+        hist.append(('CreateApp', [a, rng.randrange(len(scn['aprofiles'])) + 1]))
+        if rng.random() < 0.6:
+            hist.append(('Cycle', []))
+    hist.append(('Cycle', []))
+    hist.append(('Restart', []))
+    if rng.random() < 0.5:
+        s = rng.choice(sorted(k for k, v in scn['server_init'].items() if v))
+        hist += [('NodeDown', [s]), ('NodeUp', [s, scn['server_init'][s]]), ('Cycle', []), ('Restart', [])]
+    hist.append(('Cycle', []))
+    return hist
 
 
 def gen_random(scn, rng, depth):
